@@ -154,6 +154,9 @@ def make_cell(rng: Rng, alg: str, enc: str, form: str):
         import zlib
         c = zlib.compressobj(9, zlib.DEFLATED, -15)
         pt = rng.pick([b"c", b"K", b"{}", b"\x03\x00", c.compress(b"inflated " * rng.randrange(1, 9)) + c.flush()])
+    elif r < 0.3:
+        from .c04 import pad_lookalike
+        pt = pad_lookalike(rng)
     elif r < 0.4:
         pt = rng.bytes_(rng.pick([block - 1, block, block + 1, 2 * block]))
     elif r < 0.6:
@@ -317,6 +320,24 @@ def run(rng: Rng, tier: str, index: int) -> RunResult:
         attack("keysubst.wrong-sender-key", "recipient believes a different sender key",
                A, use_sconf=KeyConf(sconf.kind, [other_sender.public()], private=False))
         attack("keysubst.no-sender-key", "recipient has no sender key", A, use_sconf=None)
+    # a symmetric key that differs from the right one only as an octet string: another Unicode normal form of a password,
+    # a trailing NUL, a trailing newline
+    k0 = cell["rkeys"][0]
+    if k0.kty == "oct" and len(cell["rkeys"]) == 1:
+        import unicodedata
+        twins = {k0.k + b"\n", k0.k + b" "}
+        try:
+            text = k0.k.decode("utf-8")
+            for nf in ("NFC", "NFD", "NFKC", "NFKD"):
+                twins.add(unicodedata.normalize(nf, text).encode("utf-8"))
+            twins.add(text.upper().encode("utf-8"))
+        except UnicodeDecodeError:
+            pass
+        twins.discard(k0.k)
+        for tw in sorted(twins):
+            if alg in rjwe.PBES2 or len(tw) == len(k0.k):
+                attack("keysubst.look-alike-secret", "recipient holds %r instead of %r" % (tw[:24], k0.k[:24]), A,
+                       use_conf=KeyConf(conf.kind, [RKey("oct", k=tw, params=dict(k0.params))], private=True))
     # wrong key type
     wrong = K.make_oct(rng.sub("wrongtype"), 16, dict(cell["rkeys"][0].params)) if cell["rkeys"][0].kty != "oct" else \
         K.make_ec(rng.sub("wrongtype"), "P-256", dict(cell["rkeys"][0].params))
